@@ -70,6 +70,8 @@ def setup(ctx):
                       {"filename": fn, "got": [sorted(x) for x in r], "expected": [sorted(x) for x in ep], "group": "tags"})
         if state.get("via"):
             state["expect_lists"] = r
+        if hasattr(ctx, "c18_seen") and len(ctx.c18_seen) < 400:
+            ctx.c18_seen.append((fn, r))
 
     def exc_parse(args, kwargs, exc):
         fn = args[0]
@@ -234,12 +236,31 @@ def _platforms(ctx):
         ctx.sample({"platform": "macos_12_34_arm64", "str": str(Platform.parse("macos_12_34_arm64"))})
 
 
+def _reparse_sample(ctx):
+    """Names parsed earlier in the process are parsed again at the end: same outcome (no state between calls)."""
+    import dep_logic.tags.tags as T
+
+    for fn, first in ctx.c18_seen[:400]:
+        try:
+            again = T.parse_wheel_tags(fn)
+        except T.InvalidWheelFilename:
+            again = "InvalidWheelFilename"
+        except Exception as e:  # noqa: BLE001
+            again = type(e).__name__
+        bump("reparse")
+        if again != first:
+            violation(PROP, "parse_wheel_tags", "parsing the same file name again gives a different outcome",
+                      {"filename": fn, "first": first, "second": again, "group": "repeat"})
+
+
 def run(ctx):
     if ctx.shard == 0:  # the repository's own pinned examples as one more workload (outcomes ignored)
         from ..repotests import run_repo_tests
 
         run_repo_tests(ctx, ("tags",))
+    ctx.c18_seen = []
     _names(ctx, 3000 if ctx.tier == "quick" else 40000)
+    _reparse_sample(ctx)
     if ctx.shard == 0:
         _platforms(ctx)
     else:
